@@ -229,4 +229,53 @@ theorem windowed_eq (M : Acc α) (L : CommLaws M) (N : Nat) (whole : Bool) (r : 
     rw [hdec, Bool.or_true, if_pos rfl, ← rinv_long M N r us h hge]
     exact (sumA_perm M L (rot_perm r.buf r.next)).symm
 
+/-- index form of the wrapped invariant. -/
+theorem rinv_long_index (M : Acc α) (N : Nat) (r : Ring α) (us : List α) (h : RInv M N r us)
+    (hge : N ≤ us.length) (k : Nat) (hk : k < N) :
+    r.buf[(r.next + k) % N]? = (lastN N us)[k]? := by
+  have hN : 0 < N := by omega
+  have hc : r.next < r.buf.length := by rw [h.len, h.next]; exact Nat.mod_lt _ hN
+  have := rot_getElem? r.buf r.next k hc (by rw [h.len]; exact hk)
+  rw [h.len, rinv_long M N r us h hge] at this
+  exact this.symm
+
+/-! ### the class: a single instance fed accepted batches is `Ring.run` on their statistics -/
+
+variable {B O : Type}
+
+theorem eval_single_ring (M : Acc α) (N : Nat) (whole : Bool) (stat : B → Except Err α)
+    (render : α → α → Except Err O) (empty : O) (bs : List B)
+    (hb : ∀ b ∈ bs, ∃ a, stat b = .ok a) :
+    eval (ringImpl M N whole stat render empty) (single bs)
+      = .ok (Ring.run M N (bs.map (statT M stat))) := by
+  unfold single Ring.run
+  suffices ∀ (h : Hist B) (r : Ring α), eval (ringImpl M N whole stat render empty) h = .ok r →
+      eval (ringImpl M N whole stat render empty) (bs.foldl Hist.update h)
+        = .ok ((bs.map (statT M stat)).foldl (Ring.push M) r) from
+    this Hist.fresh (Ring.init M N) rfl
+  induction bs with
+  | nil => intro h r hr; simpa using hr
+  | cons b bs ih =>
+    intro h r hr
+    simp only [List.foldl_cons, List.map_cons]
+    apply ih (fun b' hb' => hb b' (List.mem_cons_of_mem _ hb'))
+    obtain ⟨a, ha⟩ := hb b (List.mem_cons_self ..)
+    have e : eval (ringImpl M N whole stat render empty) (Hist.update h b) =
+        (eval (ringImpl M N whole stat render empty) h >>= fun s =>
+          (ringImpl M N whole stat render empty).upd s b) := by
+      simp [eval]
+    rw [e, hr]
+    simp [ringImpl, ha, statT, bind, Except.bind]
+
+theorem out_run_eq_spec (M : Acc α) (L : CommLaws M) (N : Nat) (hN : 1 ≤ N) (whole : Bool)
+    (stat : B → Except Err α) (render : α → α → Except Err O) (empty : O) (us : List α) :
+    (ringImpl M N whole stat render empty).out (Ring.run M N us)
+      = computeSpec M N render empty us := by
+  have h := rinv_run M N hN us
+  simp only [ringImpl, computeSpec]
+  rw [h.total, windowed_eq M L N whole _ us h, h.life]
+  cases us with
+  | nil => simp
+  | cons u us => simp [lifetimeSpec, nonWindowed]
+
 end TE.WindowL
